@@ -526,6 +526,18 @@ func c18Run(t *testing.T, sc Scenario, res *Result) {
 		}
 		res.inc("fresh_pairs")
 		res.nontrivial(fmt.Sprintf("fresh/%x", sc.Seed))
+		// every test case of a run is identified by an unbiased, high-entropy view of its bitstream: no two may be equal
+		dup := ""
+		noDup := func(cases []string, what string) {
+			seen := map[string]int{}
+			for i, c := range cases {
+				if j, ok := seen[c]; ok && dup == "" {
+					dup = fmt.Sprintf("%s: test cases #%d and #%d of %d are identical", what, j+1, i+1, len(cases))
+				}
+				seen[c] = i
+			}
+			res.count("cases_compared_within_a_run", int64(len(cases)))
+		}
 		// freshness must not depend on what lies around: with an ignorable (stale) fail file for the test, too
 		{
 			name := fmt.Sprintf("C18stale_%x", sc.Seed&0xffff)
@@ -552,6 +564,8 @@ func c18Run(t *testing.T, sc Scenario, res *Result) {
 				})
 			}
 			os.RemoveAll("testdata")
+			noDup(st[0], "run with a stale fail file")
+			noDup(st[1], "run with a stale fail file")
 			res.inc("fresh_pairs_with_stale_fail_file")
 			if fmt.Sprint(st[0]) == fmt.Sprint(st[1]) {
 				res.violate(sc, "c18/not-fresh-stale-file", "with an ignorable fail file ("+kind+") present, two Check calls without -rapid.seed generated the same sequence of test cases", map[string]any{"first_cases": clipList(st[0], 2)})
@@ -569,10 +583,16 @@ func c18Run(t *testing.T, sc Scenario, res *Result) {
 				cur = &runs[k]
 				t.Run("mk", f)
 			}
+			for k := range runs {
+				noDup(runs[k], "MakeCheck run")
+			}
 			res.inc("stored_makecheck_triples")
 			if fmt.Sprint(runs[0]) == fmt.Sprint(runs[1]) || fmt.Sprint(runs[1]) == fmt.Sprint(runs[2]) || fmt.Sprint(runs[0]) == fmt.Sprint(runs[2]) {
 				res.violate(sc, "c18/makecheck-not-fresh", "two invocations of one stored MakeCheck function (no -rapid.seed) generated the same sequence of test cases", map[string]any{"first_cases": clipList(runs[0], 2)})
 			}
+		}
+		if dup != "" {
+			res.violate(sc, "c18/case-repeated", "the same test case was generated twice within one run (fingerprint: a permutation of 24 elements): "+dup, nil)
 		}
 		if fmt.Sprint(seqs[0]) == fmt.Sprint(seqs[1]) {
 			res.violate(sc, "c18/not-fresh", "two Check calls without -rapid.seed generated the same sequence of test cases", map[string]any{"first_cases": clipList(seqs[0], 3)})
